@@ -47,6 +47,8 @@ type prover struct {
 	depth    int // nesting of guard-helper look-ups
 	// sliceDepth bounds the look-through of re-slices in lenBounds
 	sliceDepth int
+	// joinDepth bounds the join over predecessors in lenBounds
+	joinDepth int
 }
 
 // precond is one observation of how a function is called from inside the analysed set: per parameter index the
@@ -584,6 +586,46 @@ func (p *prover) lenBounds(X ssa.Value, b *ssa.BasicBlock) (int64, int64) {
 	// subject of a successful match: len >= shortest word
 	if m := p.matchedMinLen(root, b); m > lo {
 		lo = m
+	}
+	// a merge point (after `switch len(x) - k { case 0: …; case 9: … }`): no branch condition dominates it, but the
+	// length of a parameter does not change, so it lies within the union of what the incoming edges establish. Back
+	// edges are skipped: what held on entry to the loop still holds.
+	m := b // the nearest merge point that dominates b (b itself included)
+	for m != nil && len(m.Preds) < 2 {
+		m = m.Idom()
+	}
+	if _, isParam := root.(*ssa.Parameter); isParam && m != nil && p.joinDepth < 4 {
+		b := m
+		jlo, jhi, n := int64(inf), int64(0), 0
+		for _, pr := range b.Preds {
+			if b.Dominates(pr) {
+				continue
+			}
+			q := *p
+			q.joinDepth++
+			q.extra = append([]fact{}, p.extra...)
+			if iff, ok := pr.Instrs[len(pr.Instrs)-1].(*ssa.If); ok {
+				if bo, ok := iff.Cond.(*ssa.BinOp); ok && pr.Succs[0] != pr.Succs[1] {
+					q.extra = append(q.extra, fact{cond: bo, truth: pr.Succs[0] == b})
+				}
+			}
+			l, h := q.lenBounds(X, pr)
+			if l < jlo {
+				jlo = l
+			}
+			if h > jhi {
+				jhi = h
+			}
+			n++
+		}
+		if n > 0 {
+			if jlo > lo {
+				lo = jlo
+			}
+			if jhi < hi {
+				hi = jhi
+			}
+		}
 	}
 	return lo, hi
 }
